@@ -21,7 +21,8 @@ CHECKS = {
  "C10": dict(
   text="Static half of C10: a Coq model of intermediate.rs + lua.rs (IR lowering, usage counting, text generation) is fed the real resolver's output and must reproduce the real compiler's Lua text byte for byte on every run; on the model's IR a scoping checker (every variable is introduced as a Lua local/parameter/external in an enclosing block before it is read or assigned; assignment targets are real locals, not inlinable temporaries) must accept every accepted program, and an independent scan of the REAL Lua text must find no V-name outside a binding.",
   note="The scoping theorem for all programs (lower_scoped) is not yet proved: the claim currently rests on the byte-exact tie + the checker run on every program of the tie (translation-validation strength) + the independent text oracle. The dynamic half (fresh cells per activation/iteration, capture by reference) is Lua semantics and needs the Lua interpreter model. No axioms.",
-  technique="Coq backend model tied byte-exactly to the real output + IR scoping checker + independent text scan", design="DESIGN.md §4 C10"),
+  technique="Coq backend model tied byte-exactly to the real output + IR scoping checker + independent text scan", design="DESIGN.md §4 C10",
+  category="translation_validation"),
 }
 
 NOT_YET = "not yet claimed in this revision (machinery under construction; see DESIGN.md §4 for the plan)"
@@ -57,7 +58,7 @@ def main():
                 "evidence_file": "evidence/%s.json" % pid,
                 "replay_cmd_template": "python3 tools/check.py %s --replay {path}" % pid,
                 "engine": "coq-model",
-                "level_claimed": {"category": "proof", "text": c["text"], "design_ref": c["design"]},
+                "level_claimed": {"category": c.get("category", "proof"), "text": c["text"], "design_ref": c["design"]},
                 "level_note": c["note"],
                 "technique": c["technique"],
             })
